@@ -52,6 +52,7 @@ static HOWL_RETURNED: AtomicBool = AtomicBool::new(false);
 /// connection sits in the listener's backlog, so that "a connection is ready at the very poll that should notice the interrupt" is a
 /// forced schedule, not luck
 static HOLD_P12: AtomicBool = AtomicBool::new(false);
+static WS_GATE: AtomicBool = AtomicBool::new(false);
 static OUT_PATH: std::sync::OnceLock<String> = std::sync::OnceLock::new();
 
 /// Sends the process a real SIGINT - after looking at what the process would do with it. ohkami promises to notice the interrupt: by the
@@ -267,6 +268,8 @@ fn app() -> Ohkami {
             if true { panic!("boom (scripted handler panic)") }
             "unreachable"
         }),
+        // an upgraded (WebSocket) connection is a session like any other: it is in flight until its handler is through
+        "/ws".GET(ws_handler),
         "/slow/:i".GET(|i: usize| async move {
             log(format!("handler_start:{i}"));
             loop {
@@ -279,6 +282,19 @@ fn app() -> Ohkami {
             "slow done"
         }),
     ))
+}
+
+async fn ws_handler(ctx: ohkami::ws::WebSocketContext<'_>) -> ohkami::ws::WebSocket {
+    ctx.upgrade(|_conn| async move {
+                log("ws_session_start");
+                loop {
+                    if WS_GATE.load(Ordering::SeqCst) {
+                        break;
+                    }
+                    tokio::time::sleep(Duration::from_millis(5)).await;
+                }
+                log("ws_session_end");
+    })
 }
 
 fn wait_for(mut cond: impl FnMut(&St) -> bool, secs: u64) -> bool {
@@ -310,6 +326,7 @@ pub fn child(args: &Args) {
     let late = args.flag("late").is_some();
     let boom = args.flag("boom").is_some();
     let churn: u64 = args.flag("churn").map(|v| v.parse().unwrap()).unwrap_or(0);
+    let ws = args.flag("ws").is_some();
     let _ = OUT_PATH.set(args.out.clone());
     if args.flag("sigign").is_some() {
         // the process starts with SIGINT ignored, as a background job of a non-interactive shell does
@@ -414,6 +431,22 @@ pub fn child(args: &Args) {
                     idles.push(c);
                 }
             }
+            // one upgraded connection in flight at the time of the interrupt
+            let mut ws_conn: Option<TcpStream> = None;
+            if ws {
+                if let Ok(mut c) = connect() {
+                    let _ = c.write_all(b"GET /ws HTTP/1.1\r\nHost: t\r\nConnection: Upgrade\r\nUpgrade: websocket\r\nSec-WebSocket-Version: 13\r\nSec-WebSocket-Key: dGhlIHNhbXBsZSBub25jZQ==\r\n\r\n");
+                    c.set_read_timeout(Some(Duration::from_secs(5))).ok();
+                    let mut b = [0u8; 512];
+                    let n = c.read(&mut b).unwrap_or(0);
+                    log(format!("ws_handshake:{}", b[..n].starts_with(b"HTTP/1.1 101")));
+                    ws_conn = Some(c);
+                }
+                let t = Instant::now();
+                while !LOG.lock().unwrap().iter().any(|(_, e)| e == "ws_session_start") && t.elapsed() < Duration::from_secs(5) {
+                    std::thread::sleep(Duration::from_millis(5));
+                }
+            }
             // connection churn before the interrupt: many short sessions from several clients end on the runtime's worker threads while the
             // accept loop keeps registering new ones (the wait group that `howl` waits on is shared between them)
             if churn > 0 {
@@ -487,6 +520,11 @@ pub fn child(args: &Args) {
                 log(format!("gate_open:{i}"));
                 GATES.lock().unwrap()[*i] = true;
             }
+            if ws {
+                std::thread::sleep(Duration::from_millis(15));
+                log("ws_gate_open");
+                WS_GATE.store(true, Ordering::SeqCst);
+            }
             // read the responses of the slow requests, then close everything
             for (i, c) in conns.iter_mut().enumerate() {
                 c.set_read_timeout(Some(Duration::from_secs(5))).ok();
@@ -495,6 +533,14 @@ pub fn child(args: &Args) {
                 log(format!("client_got_response:{i}:{}", n > 0 && b[..n].windows(9).any(|w| w == b"slow done")));
             }
             drop(conns);
+            if ws {
+                // the upgraded session ends when its handler is through; the client waits for that before it hangs up
+                let t = Instant::now();
+                while !LOG.lock().unwrap().iter().any(|(_, e)| e == "ws_session_end") && t.elapsed() < Duration::from_secs(5) {
+                    std::thread::sleep(Duration::from_millis(5));
+                }
+            }
+            drop(ws_conn);
             for c in idles { drop(c); log("idle_closed"); }
             let t = Instant::now();
             while !HOWL_RETURNED.load(Ordering::SeqCst) && t.elapsed() < Duration::from_secs(if patient { 100 } else { 10 }) {
@@ -582,6 +628,8 @@ pub fn run(args: &Args, rep: &mut Report) {
         // scenario 0 is the witness of C18-X2 (connections ready at the poll that has to notice the interrupt)
         if rng.bool() || s == 0 { ex.push(("late", "1".into())) }
         if rng.chance(1, 3) { ex.push(("boom", "1".into())) }
+        // scenario 4 always, others sometimes: an upgraded (WebSocket) connection in flight
+        if s == 4 || rng.chance(1, 5) { ex.push(("ws", "1".into())) }
         // scenarios 2 and 3 always, others sometimes: connection churn from 8 clients before the interrupt
         // (3 000 exchanges per client = 24 000 sessions in about half a second: measured, a lost update of the shared session counter under this
         // churn shows in 4 of 4 runs, under 400 exchanges in 1 of 4)
@@ -591,7 +639,8 @@ pub fn run(args: &Args, rep: &mut Report) {
         let b = ex.iter().any(|(k, _)| *k == "boom");
         let ign = ex.iter().any(|(k, _)| *k == "sigign");
         let ch = ex.iter().any(|(k, _)| *k == "churn");
-        work.push((format!("sess:{s}:n{n}:idle{idle}{}{}{}", if ign { ":sigign" } else { "" }, if ch { ":churn" } else { "" }, if b { ":boom" } else { "" }), ex));
+        let wsf = ex.iter().any(|(k, _)| *k == "ws");
+        work.push((format!("sess:{s}:n{n}:idle{idle}{}{}{}{}", if ign { ":sigign" } else { "" }, if ch { ":churn" } else { "" }, if wsf { ":ws" } else { "" }, if b { ":boom" } else { "" }), ex));
     }
     for (i, (name, extra)) in work.iter().enumerate() {
         if (i as u64) % args.nshards != args.shard || (i as u64) < args.start {
@@ -699,6 +748,19 @@ fn judge(rep: &mut Report, idx: u64, name: &str, doc: &Value) {
                 return;
             }
             let r = returned.first().copied().unwrap_or(u64::MAX);
+            if name.contains(":ws") {
+                let started = log.iter().any(|(_, e)| e == "ws_session_start");
+                let ended = seq_of(&log, |e| e == "ws_session_end");
+                if started {
+                    rep.count("scenarios_with_an_upgraded_session_in_flight");
+                    if ended.first().map(|e| *e > r).unwrap_or(true) {
+                        rep.violation("C18/returned-before-sessions-finished", "howl returned while an upgraded (WebSocket) session was still being served", cj());
+                        return;
+                    }
+                } else {
+                    rep.count("ws_handshake_did_not_start_a_session");
+                }
+            }
             if ends.len() as u64 != n {
                 rep.violation("C18/session-cut-short", &format!("{} of {n} slow handlers finished", ends.len()), cj());
             } else if ends.iter().any(|e| *e > r) {
